@@ -599,7 +599,7 @@ __find_zrng(const struct zif_s z[static 1U], stamp_t t, int min, int max)
 		res.prev = STAMP_MIN;
 		res.next = STAMP_MAX;
 	} else {
-		res.trno = (uint8_t)trno;
+		res.trno = trno;
 		if (LIKELY(trno + 1U < z->ntr)) {
 			res.next = zif_trans(z, trno + 1U);
 		} else {
